@@ -412,6 +412,11 @@ func SetSlice(dest reflect.Value, objects interface{}) error {
 	v := EnsurePackValue(objects)
 	if h, ok := v.Interface().(*_refHolder); ok {
 		h.add(dest)
+		// a reference to a list that is already complete is never notified
+		// again: take the value the holder has now
+		if cv, err := ConvertSliceValueType(destTyp, h.value); err == nil && cv.IsValid() {
+			SetValue(dest, cv)
+		}
 		return nil
 	}
 
